@@ -2,7 +2,9 @@
 //! See vc-load/NOTES.md.
 
 use proptest::prelude::*;
+use std::path::PathBuf;
 use vc_load::case::{self, Case, Samples};
+use vc_load::oracle::Fmt;
 use vc_load::mutate::{bop, raw_mut, raw_rten};
 use vc_load::worker;
 use vc_onnxgen::grammar::{raw_graph, Profile};
@@ -40,8 +42,8 @@ fn main() {
     }
     let profile = Profile::general();
     let samples = Samples::load();
-    if samples.items.len() < 3 {
-        ck.inconclusive("sample models under /repo not found");
+    if samples.n_repo_models() == 0 || samples.items.len() < 20 {
+        ck.inconclusive("sample models (/repo/rten-onnx/test-data, /verif/corpus/model_load_*) not found");
     }
     let id = "C05";
     let q = ck.pick(1, 25);
@@ -93,8 +95,173 @@ fn main() {
         |c| case::oracle(id, c, &profile, &samples),
         |c| case::export(c, &profile, &samples),
     );
+    // committed seed corpus of the fuzz targets (also the replay route for fuzzer artifacts)
+    let corpus: Vec<Case> = [Fmt::Onnx, Fmt::Rten].iter().flat_map(|f| corpus_cases(*f)).collect();
+    ck.enumerate("corpus", true, corpus.into_iter(), |c| case::oracle(id, c, &profile, &samples));
+    worker::retire();
+
+    if ck.tier() == vcore::Tier::Thorough && !ck.is_replay() {
+        for (fmt, target) in [(Fmt::Onnx, "model_load_onnx"), (Fmt::Rten, "model_load_rten")] {
+            if ck.selected(&format!("fuzz-{target}")) {
+                fuzz_campaign(&mut ck, fmt, target, 3_000_000, 300, &profile, &samples);
+            }
+        }
+    }
     for h in worker::HANGS.lock().unwrap().drain(..) {
         ck.inconclusive(h);
     }
+    worker::sweep_stale_dirs();
     ck.finish();
+}
+
+fn corpus_cases(fmt: Fmt) -> Vec<Case> {
+    let mut files: Vec<PathBuf> = std::fs::read_dir(case::corpus_dir(fmt))
+        .map(|rd| rd.filter_map(|e| e.ok()).map(|e| e.path()).collect())
+        .unwrap_or_default();
+    files.sort();
+    files
+        .iter()
+        .filter_map(|p| std::fs::read(p).ok())
+        .map(|b| Case::Fixed { fmt, hex: case::hex(&b), labels: vec!["gen:corpus-file".into()] })
+        .collect()
+}
+
+fn tail(log: &str, n: usize) -> String {
+    log.lines().rev().take(n).collect::<Vec<_>>().into_iter().rev().collect::<Vec<_>>().join(" | ")
+}
+
+/// Thorough tier: a bounded libFuzzer campaign (ASan build, parse-level oracle
+/// in-process). Every crash artifact is replayed through the stable oracle; the
+/// units libFuzzer kept (new coverage) are then run through the *full* oracle
+/// (optimising loads and runs) in the supervised workers.
+fn fuzz_campaign(ck: &mut Check, fmt: Fmt, target: &str, runs: u64, max_time_s: u64, profile: &Profile, samples: &Samples) {
+    use std::process::Command;
+    let name = format!("fuzz-{target}");
+    let root = vcore::verif_root();
+    let fuzz_dir = root.join("fuzz");
+    if !fuzz_dir.join("Cargo.toml").exists() {
+        ck.inconclusive(format!("{name}: {} not found", fuzz_dir.display()));
+        return;
+    }
+    let work = root.join("harness/target/vc-load/fuzz-work").join(target);
+    let artifacts = work.join("artifacts");
+    let live = work.join("corpus");
+    let _ = std::fs::remove_dir_all(&work);
+    if std::fs::create_dir_all(&artifacts).is_err() || std::fs::create_dir_all(&live).is_err() {
+        ck.inconclusive(format!("{name}: cannot create {}", work.display()));
+        return;
+    }
+    if !fuzz_dir.join("Cargo.lock").exists() {
+        let _ = std::fs::copy("/repo/Cargo.lock", fuzz_dir.join("Cargo.lock"));
+    }
+    let cargo = |args: &[&str]| {
+        let mut c = Command::new("cargo");
+        c.arg("+nightly").arg("fuzz").args(args).arg("--fuzz-dir").arg(&fuzz_dir).current_dir(&fuzz_dir).env("CARGO_NET_OFFLINE", "true").env("VCORE_ROOT", &root);
+        c
+    };
+    match cargo(&["build"]).arg(target).output() {
+        Ok(o) if o.status.success() => {}
+        Ok(o) => {
+            ck.inconclusive(format!("{name}: `cargo +nightly fuzz build` failed: {}", tail(&String::from_utf8_lossy(&o.stderr), 6)));
+            return;
+        }
+        Err(e) => {
+            ck.inconclusive(format!("{name}: cannot run cargo fuzz: {e}"));
+            return;
+        }
+    }
+    let seed = ck.seed().wrapping_add(1).max(1);
+    let out = cargo(&["run"])
+        .arg(target)
+        .arg(&live)
+        .arg(case::corpus_dir(fmt))
+        .arg("--")
+        .arg(format!("-runs={runs}"))
+        .arg(format!("-max_total_time={max_time_s}"))
+        .arg(format!("-seed={}", seed as u32))
+        .arg("-len_control=0")
+        .arg("-max_len=4096")
+        .arg("-timeout=60")
+        .arg("-rss_limit_mb=6144")
+        .arg("-malloc_limit_mb=12288")
+        .arg("-print_final_stats=1")
+        .arg(format!("-artifact_prefix={}/", artifacts.display()))
+        .output();
+    let out = match out {
+        Ok(o) => o,
+        Err(e) => {
+            ck.inconclusive(format!("{name}: cannot run the fuzzer: {e}"));
+            return;
+        }
+    };
+    let log = String::from_utf8_lossy(&out.stderr).to_string();
+    let stat = |key: &str| -> u64 {
+        log.lines().rev().find_map(|l| l.strip_prefix(key).and_then(|r| r.trim().trim_start_matches(':').trim().parse::<u64>().ok())).unwrap_or(0)
+    };
+    let execs = stat("stat::number_of_executed_units");
+    let cov = log
+        .lines()
+        .rev()
+        .find_map(|l| l.split(" cov: ").nth(1).and_then(|r| r.split_whitespace().next()).and_then(|n| n.parse::<u64>().ok()))
+        .unwrap_or(0);
+    let read_dir = |d: &std::path::Path| -> Vec<PathBuf> {
+        let mut v: Vec<PathBuf> = std::fs::read_dir(d).map(|rd| rd.filter_map(|e| e.ok()).map(|e| e.path()).collect()).unwrap_or_default();
+        v.sort();
+        v
+    };
+    let arts = read_dir(&artifacts);
+    let raw_name = format!("{name}-artifacts");
+    let mut n_viol = 0;
+    for a in &arts {
+        let Ok(bytes) = std::fs::read(a) else { continue };
+        let kind = a.file_name().and_then(|f| f.to_str()).unwrap_or("").split('-').next().unwrap_or("").to_string();
+        let c = Case::Fixed { fmt, hex: case::hex(&bytes), labels: vec![format!("gen:libfuzzer-{kind}")] };
+        match case::oracle("C05", &c, profile, samples) {
+            vcore::Verdict::Fail { signature, detail } => {
+                if ck.manual_fail("corpus", &c, &signature, &format!("found by libFuzzer target {target}: {detail}")) {
+                    n_viol += 1;
+                }
+            }
+            _ => match kind.as_str() {
+                "timeout" | "slow" | "oom" | "leak" => ck.inconclusive(format!(
+                    "{name}: libFuzzer reported {kind} on a {}-byte unit that the stable harness handles without incident; kept at {}",
+                    bytes.len(),
+                    a.display()
+                )),
+                _ => {
+                    if ck.manual_fail(
+                        "corpus",
+                        &c,
+                        &format!("fuzz-crash:{target}:not-reproduced-by-stable-harness"),
+                        &format!("libFuzzer/ASan crash artifact {} does not violate the stable oracle; report tail: {}", a.display(), tail(&log, 12)),
+                    ) {
+                        n_viol += 1;
+                    }
+                }
+            },
+        }
+    }
+    let _ = raw_name;
+    if !out.status.success() && arts.is_empty() {
+        ck.inconclusive(format!("{name}: fuzzer exited with {:?} without an artifact: {}", out.status.code(), tail(&log, 6)));
+    }
+    // full oracle on what the fuzzer kept
+    let kept: Vec<Case> = read_dir(&live)
+        .iter()
+        .filter_map(|p| std::fs::read(p).ok())
+        .map(|b| Case::Fixed { fmt, hex: case::hex(&b), labels: vec!["gen:libfuzzer-kept-unit".into()] })
+        .collect();
+    let n_kept = kept.len() as u64;
+    ck.enumerate(&format!("{name}-kept-units"), false, kept.into_iter(), |c| case::oracle("C05", c, profile, samples));
+    worker::retire();
+    ck.extra(
+        &name,
+        serde_json::json!({"executions": execs, "kept_units": n_kept, "edge_coverage": cov, "artifacts": arts.len(),
+            "violations": n_viol, "runs_limit": runs, "max_total_time_s": max_time_s, "libfuzzer_seed": seed as u32}),
+    );
+    println!("{name}: executions={execs} kept={n_kept} cov={cov} artifacts={}", arts.len());
+    ck.bulk(&name, execs, 0, false, vec![]);
+    if arts.is_empty() {
+        let _ = std::fs::remove_dir_all(&work);
+    }
 }
